@@ -99,6 +99,10 @@ def run(ctx):
         with res.guard(f"E-PURE of {d}"):
             check_pure(ctx, eff, res, d, roots=("self",))
         ctx.add_sites(res, ctx.sites(rules=("K-KEY",), funcs=[f]))
+        # the tables the pre-image is read from are keyed by canonical hyperedge keys: "equal content, equal hash" rests on the
+        # insertion primitives looking up / storing a hyperedge under its canonical key, whatever order the caller listed the members in
+        ins = [ctx.prog.func(f"{cls}.{m}") for m in ("add_edge", "add_edges", "add_node")]
+        ctx.add_sites(res, ctx.sites(rules=("K-KEY", "K-VAL"), funcs=[i_.short for i_ in ins if i_ is not None]))
         # the units that build the pre-image: the method, its nested functions, the private methods it calls on self
         units = [v.fi] + list(v.fi.nested.values())
         for n in ast.walk(v.fi.node):
